@@ -6,8 +6,9 @@
 # The demo test file(s) are expected to be already present (untracked) in the worktree.
 set -u
 ID=$1; NAME=$2; CRATE=$3; TEST=$4; shift 4
-WT=/tmp/seed/$ID/repo
-OUT=/tmp/seed/$ID/out
+BASE=${SEED_BASE:-/tmp/seed}
+WT=$BASE/$ID/repo
+OUT=$BASE/$ID/out
 cd $WT || exit 2
 git checkout -q -- .
 echo "== unchanged tree"
@@ -17,9 +18,12 @@ git apply $OUT/patch.diff || { echo "patch does not apply"; exit 2; }
 echo "== with patch"
 cargo test --offline -j 8 -p $CRATE --test $TEST "$@" 2>&1 | grep -E "^test |test result|panicked|error" | tail -8
 R1=${PIPESTATUS[0]}
+echo "== existing tests of $CRATE with the patch (lib + doc; demo excluded)"
+cargo test --offline -j 8 -p $CRATE --lib 2>&1 | grep -E "test result|FAILED|failed" | tail -4
+R2=${PIPESTATUS[0]}
 git checkout -q -- .
-echo "unchanged exit=$R0 patched exit=$R1"
-if [ "$R0" = "0" ] && [ "$R1" != "0" ]; then
+echo "unchanged exit=$R0 patched exit=$R1 existing-lib-tests-with-patch exit=$R2"
+if [ "$R0" = "0" ] && [ "$R1" != "0" ] && [ "$R2" = "0" ]; then
   mkdir -p /verif/seeded/$NAME
   cp $OUT/patch.diff /verif/seeded/$NAME/patch.diff
   rm -rf /verif/seeded/$NAME/demo; cp -r $OUT/demo /verif/seeded/$NAME/demo
